@@ -496,5 +496,6 @@ def main(pid, run):
             finish(ctx, inconclusive=True)
         except Exception:
             pass
-        rc = EXIT_INCONCLUSIVE
+        # a violation already established on real state stands even if a later stage could not complete
+        rc = EXIT_VIOLATION if ctx.violations else EXIT_INCONCLUSIVE
     sys.exit(rc)
